@@ -138,7 +138,7 @@ func (w *verifWorld) snap() *verifSnap {
 	for j := 0; j < vR && j < len(gb.scRefList); j++ {
 		s.list[j] = gb.scRefList[j]
 	}
-	s.rr = gb.rrRefId
+	s.rr = uint32(gb.rrRefId)
 	s.poolSize = len(gb.scRefs)
 	s.nAddrs = len(gb.addrs)
 	s.addrTagGb = verifAddrTag(gb.addrs)
@@ -249,7 +249,7 @@ func VerifH_usc() {
 	}
 	// C02(d) / C07(e): no state report touches a stream counter
 	for j := 0; j < vR; j++ {
-		verifAssert(post.streams[j] == pre.streams[j], "C02: a state report changed a stream counter")
+		verifAssert(post.streams[j] == pre.streams[j], "C02,C07: a state report changed a stream counter (active streams survive a refresh: the replacement takes them over)")
 	}
 	// C03(e): the balancer removes only the old connection of a completed refresh, exactly once; never creates here
 	verifAssert(post.created == pre.created, "C03: a state report created a connection")
